@@ -450,6 +450,17 @@ def s8_bytes_mul():
     INSTALLED.append('S8 bytes*int as repeated concatenation')
 
 
+# ----------------------------------------------------------------------------------------- S11
+def s11_memoryview_ctx():
+    """CrossHair's memoryview stand-in lacks the context-manager protocol (`with memoryview(b) as v:` in the image parser)"""
+    from crosshair.libimpl import builtinslib as bl
+    mv = getattr(bl, 'SymbolicMemoryView', None)
+    if mv is not None and not hasattr(mv, '__enter__'):
+        mv.__enter__ = lambda self: self
+        mv.__exit__ = lambda self, *a: None
+        INSTALLED.append('S11 memoryview stand-in usable as a context manager')
+
+
 # ----------------------------------------------------------------------------------------- S10
 def s10_no_shortcircuit():
     import crosshair.core as core
@@ -470,6 +481,7 @@ def install(symmpi=False, hexmodel=True, lazyhex=False):
     s7_bytes_eq()
     s8_bytes_mul()
     s10_no_shortcircuit()
+    s11_memoryview_ctx()
 
 
 def selftest():
